@@ -11,10 +11,39 @@
      * C01_model_satisfier_spends: the Gallina model of the library's satisfier (sat_dissat,
        minimum, minimum_mall, thresh with its stable sort, multi, multi_a, both modes) only
        outputs table entries, so everything it returns is accepted.
+     * DESCRIPTOR LEVEL (Proofs/DescSpend*.v, model Ms/DescSpendModel.v): what the satisfier model
+       returns, packaged the way each output-type wrapper packages it, is accepted by the
+       output-type validation of Script/Spend.v (consensus + standardness), END TO END FROM BYTES:
+       the byte-level parser recovers the script (C04 parse_encode: hypotheses ksort_ok / ms_wf
+       instead of a parse hypothesis) and, for the pre-segwit types, parses the scriptSig built
+       by the model of util.rs witness_to_scriptsig and evaluates it (push-only) to the items
+       (DescSpendPush.scriptsig_roundtrip; the item 01 becomes OP_1, 81 becomes OP_1NEGATE, the
+       empty item OP_0 - faithful to Builder::push_int - which is exactly what MINIMALDATA wants).
+         C01_wsh_descriptor_spends_v2      P2WSH        witness items ++ [script]
+         C01_sh_descriptor_spends          P2SH         scriptSig = pushes(items ++ [script])
+         C01_shwsh_descriptor_spends       P2SH-P2WSH   scriptSig = push(witness program)
+         C01_bare_descriptor_spends        bare         scriptSig = pushes(items)
+         C01_tr_descriptor_spends          P2TR script path, witness items ++ [script; control]
+         C01_*_spend_dispatch              the same through the dispatcher verify_spend on the
+                                           scriptPubKey of the C16 model (to_p2wsh, to_p2sh, ...)
+         C01_wpkh_spends, C01_shwpkh_spends (+ dispatch)   key-only types (not miniscripts)
+       Both well-formedness predicates are carried: [wf] (TheoremA: semantic side conditions -
+       hash images differ from the image of 32 zero bytes, multi only outside / multi_a only inside
+       tapscript, thresh arity < 1000) and [ms_wf] (C04: BYTE LENGTHS of keys and hashes, which is
+       what makes the serialisation parse back); neither implies the other.
+       Resource limits stay explicit hypotheses, exactly those Spend.v applies to the type;
+       C01_wsh_descriptor_spends_computable replaces three of them by the library's own computable
+       figures (script_size - C04; static_ops and max_sat_elems - C09).
+       [is_bytes] (every element < 256) is the typing invariant of bytes = list N; without it
+       witness_to_scriptsig is not the identity on items (read_scriptint/push_int re-encode).
+       The hash-length hypotheses (blen (e_sha256 ..) = 32 etc.) are needed because the hash
+       functions of [env] are abstract.
    The model of the satisfier is compared with the implementation on every run, and
    independently every witness the implementation returns is executed.
    The script-number facts used (minimal encoding round-trips) are proved in ScriptNumProofs.v. *)
 From Verif Require Import Exec Ser Spend Ast Types TypeCheck SatSpec Sat ExecLemmas TheoremA SatProofs.
+From Verif Require Import CodecSpec SerProofs DescSpendModel DescSpendPush DescSpendProofs DescSpendBare.
+From Verif Require DescSpendLimits DescSpendExamples CodecExt ExtModel ExtProofs ExtSize.
 
 Theorem C01_table_sound_partial :
   forall (e : env) (ke : keyenv) (A : assets), assets_ok e ke A -> (forall kbs, e_sigok e kbs [] = false) ->
@@ -59,6 +88,301 @@ Theorem C01_wsh_descriptor_spends :
     verify_wsh e (e_sha256 e sb) (bs ++ [sb]) = true.
 Proof. exact model_wsh_spends. Qed.
 Print Assumptions C01_wsh_descriptor_spends.
+
+(* ================= descriptor level, end to end from bytes (Proofs/DescSpend*.v) ================= *)
+Local Open Scope N_scope.
+
+(* P2WSH without the parse hypothesis: C04's parse_encode supplies it from ksort_ok / ms_wf. *)
+Theorem C01_wsh_descriptor_spends_v2 :
+  forall (e : env) (ke : keyenv) (A : assets) (se : senv) (f : fill),
+  linked ke A se f -> ksort_ok ke -> (forall kbs, e_sigok e kbs [] = false) ->
+  forall (mall rhs : bool) (m : ms) (t : ty),
+    type_of m = ROk t -> c_base (t_corr t) = BB -> no_multi m ->
+  forall bs, satisfy ke se f mall rhs m = Some bs ->
+    assets_ok (with_sv e SvWitnessV0) ke A -> wf (with_sv e SvWitnessV0) ke m -> ms_wf Segwitv0 ke m ->
+    blen (encode ke m) <= 3600 -> N.of_nat (length bs) <= 100 ->
+    forallb (fun it => N.leb (blen it) 80) (rev bs) = true ->
+    count_nonpush_ops (enc ke m) <= 201 ->
+    verify_wsh e (e_sha256 e (encode ke m)) (bs ++ [encode ke m]) = true.
+Proof. exact wsh_spends_v2. Qed.
+Print Assumptions C01_wsh_descriptor_spends_v2.
+
+(* ... with the library's computable figures in place of three of the limits: script_size (exact,
+   C04), static_ops of ExtData (exact when no multi_a, C09), max_sat_elems (C09 bound, class ext_safe) *)
+Theorem C01_wsh_descriptor_spends_computable :
+  forall (e : env) (ke : keyenv) (A : assets) (se : senv) (f : fill),
+  linked ke A se f -> ksort_ok ke -> (forall kbs, e_sigok e kbs [] = false) ->
+  forall (mall rhs : bool) (m : ms) (t : ty),
+    type_of m = ROk t -> c_base (t_corr t) = BB -> no_multi m ->
+  forall bs, satisfy ke se f mall rhs m = Some bs ->
+    assets_ok (with_sv e SvWitnessV0) ke A -> wf (with_sv e SvWitnessV0) ke m -> ms_wf Segwitv0 ke m ->
+  forall xc : ExtModel.xctx, ExtProofs.senv_ok xc se -> ExtModel.ext_safe ExtModel.as_written xc m = true ->
+    ExtSize.no_multi_a m = true ->
+    CodecExt.script_size Segwitv0 ke m <= 3600 ->
+    ExtModel.static_ops (ExtModel.ext_of xc m) <= 201 ->
+    (forall d, ExtModel.sat_data (ExtModel.ext_of xc m) = Some d -> ExtModel.sd_wcount d <= 100) ->
+    forallb (fun it => N.leb (blen it) 80) (rev bs) = true ->
+    verify_wsh e (e_sha256 e (encode ke m)) (bs ++ [encode ke m]) = true.
+Proof. exact DescSpendLimits.wsh_spends_computable. Qed.
+Print Assumptions C01_wsh_descriptor_spends_computable.
+
+(* the scriptSig builder (model of util.rs witness_to_scriptsig) round-trips: whatever it returns
+   serialises to bytes that parse back to it, and its push-only evaluation is the item list
+   (last item on top) *)
+Theorem C01_scriptsig_roundtrip :
+  forall (items : list bytes) (ss : script), Forall is_bytes items -> witness_to_scriptsig items = Some ss ->
+    parse_script (serialize ss) = Some ss /\ pushonly_stack ss [] = Some (rev items).
+Proof. exact scriptsig_parse_stack. Qed.
+Print Assumptions C01_scriptsig_roundtrip.
+
+(* P2SH: sh(ms). scriptSig = witness_to_scriptsig (items ++ [redeem script]), empty witness.
+   The 520-byte redeem-script limit is implied by the builder's own assert (it returned Some);
+   the push-only rule and MINIMALDATA by C01_scriptsig_roundtrip; that the redeem script is not
+   itself of witness-program form is DERIVED (such a script leaves two elements). *)
+Theorem C01_sh_descriptor_spends :
+  forall (e : env) (ke : keyenv) (A : assets) (se : senv) (f : fill),
+  linked ke A se f -> ksort_ok ke -> (forall kbs, e_sigok e kbs [] = false) ->
+  forall (mall rhs : bool) (m : ms) (t : ty),
+    type_of m = ROk t -> c_base (t_corr t) = BB -> no_multi m ->
+  forall bs, satisfy ke se f mall rhs m = Some bs ->
+    assets_ok (with_sv e SvBase) ke A -> wf (with_sv e SvBase) ke m -> ms_wf Legacy ke m ->
+    Forall is_bytes bs -> is_bytes (encode ke m) ->
+  forall ss, witness_to_scriptsig (bs ++ [encode ke m]) = Some ss ->
+    blen (serialize ss) <= 1650 -> count_nonpush_ops (enc ke m) <= 201 ->
+    verify_sh e (e_hash160 e (encode ke m)) (serialize ss) [] = true.
+Proof. exact sh_spends. Qed.
+Print Assumptions C01_sh_descriptor_spends.
+
+(* P2SH-P2WSH: sh(wsh(ms)). scriptSig = the push of the witness program (Sh::unsigned_script_sig),
+   witness as for P2WSH. *)
+Theorem C01_shwsh_descriptor_spends :
+  forall (e : env) (ke : keyenv) (A : assets) (se : senv) (f : fill),
+  linked ke A se f -> ksort_ok ke -> (forall kbs, e_sigok e kbs [] = false) ->
+  forall (mall rhs : bool) (m : ms) (t : ty),
+    type_of m = ROk t -> c_base (t_corr t) = BB -> no_multi m ->
+  forall bs, satisfy ke se f mall rhs m = Some bs ->
+    assets_ok (with_sv e SvWitnessV0) ke A -> wf (with_sv e SvWitnessV0) ke m -> ms_wf Segwitv0 ke m ->
+    blen (e_sha256 e (encode ke m)) = 32 ->
+    blen (encode ke m) <= 3600 -> N.of_nat (length bs) <= 100 ->
+    forallb (fun it => N.leb (blen it) 80) (rev bs) = true ->
+    count_nonpush_ops (enc ke m) <= 201 ->
+    verify_sh e (e_hash160 e (spk_wsh e (encode ke m))) (ssig_shwsh e (encode ke m)) (bs ++ [encode ke m]) = true.
+Proof. exact shwsh_spends. Qed.
+Print Assumptions C01_shwsh_descriptor_spends.
+
+(* bare: scriptPubKey = the script, scriptSig = witness_to_scriptsig items, empty witness *)
+Theorem C01_bare_descriptor_spends :
+  forall (e : env) (ke : keyenv) (A : assets) (se : senv) (f : fill),
+  linked ke A se f -> ksort_ok ke -> (forall kbs, e_sigok e kbs [] = false) ->
+  forall (mall rhs : bool) (m : ms) (t : ty),
+    type_of m = ROk t -> c_base (t_corr t) = BB -> no_multi m ->
+  forall bs, satisfy ke se f mall rhs m = Some bs ->
+    assets_ok (with_sv e SvBase) ke A -> wf (with_sv e SvBase) ke m -> ms_wf Bare ke m ->
+    Forall is_bytes bs ->
+  forall ss, witness_to_scriptsig bs = Some ss ->
+    blen (serialize ss) <= 1650 -> blen (encode ke m) <= 10000 -> count_nonpush_ops (enc ke m) <= 201 ->
+    verify_bare e (encode ke m) (serialize ss) [] = true.
+Proof. exact bare_spends. Qed.
+Print Assumptions C01_bare_descriptor_spends.
+
+(* P2TR script path: witness = items ++ [leaf script; control block], tapscript signature version.
+   [commit_ok] is the oracle for the BIP341 commitment of (leaf script, control block) to the output
+   key (C15 models it).  Holds for every satisfier environment, in particular se_tap se = true (the
+   example below uses it); [wf] under SvTapscript allows multi_a and forbids multi. *)
+Theorem C01_tr_descriptor_spends :
+  forall (e : env) (ke : keyenv) (A : assets) (se : senv) (f : fill),
+  linked ke A se f -> ksort_ok ke -> (forall kbs, e_sigok e kbs [] = false) ->
+  forall (mall rhs : bool) (m : ms) (t : ty),
+    type_of m = ROk t -> c_base (t_corr t) = BB -> no_multi m ->
+  forall bs, satisfy ke se f mall rhs m = Some bs ->
+  forall (commit_ok : bytes -> bytes -> bool) (outkey cb : bytes),
+    assets_ok (with_sv e SvTapscript) ke A -> wf (with_sv e SvTapscript) ke m -> ms_wf Tap ke m ->
+    commit_ok (encode ke m) cb = true -> not_annex cb ->
+    N.of_nat (length bs) <= 1000 -> forallb (fun it => N.leb (blen it) 520) (rev bs) = true ->
+    verify_tr e outkey commit_ok [] (bs ++ [encode ke m; cb]) = true.
+Proof. exact tr_spends. Qed.
+Print Assumptions C01_tr_descriptor_spends.
+
+(* ---- the same through the dispatcher: verify_spend on the scriptPubKey of each output type ---- *)
+Theorem C01_wsh_spend_dispatch :
+  forall (e : env) (ke : keyenv) (A : assets) (se : senv) (f : fill),
+  linked ke A se f -> ksort_ok ke -> (forall kbs, e_sigok e kbs [] = false) ->
+  forall (mall rhs : bool) (m : ms) (t : ty),
+    type_of m = ROk t -> c_base (t_corr t) = BB -> no_multi m ->
+  forall bs, satisfy ke se f mall rhs m = Some bs ->
+  forall commit_ok : bytes -> bytes -> bool,
+    assets_ok (with_sv e SvWitnessV0) ke A -> wf (with_sv e SvWitnessV0) ke m -> ms_wf Segwitv0 ke m ->
+    blen (e_sha256 e (encode ke m)) = 32 ->
+    blen (encode ke m) <= 3600 -> N.of_nat (length bs) <= 100 ->
+    forallb (fun it => N.leb (blen it) 80) (rev bs) = true ->
+    count_nonpush_ops (enc ke m) <= 201 ->
+    verify_spend e commit_ok (spk_wsh e (encode ke m)) [] (bs ++ [encode ke m]) = true.
+Proof. exact wsh_dispatch. Qed.
+Print Assumptions C01_wsh_spend_dispatch.
+
+Theorem C01_sh_spend_dispatch :
+  forall (e : env) (ke : keyenv) (A : assets) (se : senv) (f : fill),
+  linked ke A se f -> ksort_ok ke -> (forall kbs, e_sigok e kbs [] = false) ->
+  forall (mall rhs : bool) (m : ms) (t : ty),
+    type_of m = ROk t -> c_base (t_corr t) = BB -> no_multi m ->
+  forall bs, satisfy ke se f mall rhs m = Some bs ->
+  forall commit_ok : bytes -> bytes -> bool,
+    assets_ok (with_sv e SvBase) ke A -> wf (with_sv e SvBase) ke m -> ms_wf Legacy ke m ->
+    blen (e_hash160 e (encode ke m)) = 20 ->
+    Forall is_bytes bs -> is_bytes (encode ke m) ->
+  forall ss, witness_to_scriptsig (bs ++ [encode ke m]) = Some ss ->
+    blen (serialize ss) <= 1650 -> count_nonpush_ops (enc ke m) <= 201 ->
+    verify_spend e commit_ok (spk_sh e (encode ke m)) (serialize ss) [] = true.
+Proof. exact sh_dispatch. Qed.
+Print Assumptions C01_sh_spend_dispatch.
+
+Theorem C01_shwsh_spend_dispatch :
+  forall (e : env) (ke : keyenv) (A : assets) (se : senv) (f : fill),
+  linked ke A se f -> ksort_ok ke -> (forall kbs, e_sigok e kbs [] = false) ->
+  forall (mall rhs : bool) (m : ms) (t : ty),
+    type_of m = ROk t -> c_base (t_corr t) = BB -> no_multi m ->
+  forall bs, satisfy ke se f mall rhs m = Some bs ->
+  forall commit_ok : bytes -> bytes -> bool,
+    assets_ok (with_sv e SvWitnessV0) ke A -> wf (with_sv e SvWitnessV0) ke m -> ms_wf Segwitv0 ke m ->
+    blen (e_sha256 e (encode ke m)) = 32 -> blen (e_hash160 e (spk_wsh e (encode ke m))) = 20 ->
+    blen (encode ke m) <= 3600 -> N.of_nat (length bs) <= 100 ->
+    forallb (fun it => N.leb (blen it) 80) (rev bs) = true ->
+    count_nonpush_ops (enc ke m) <= 201 ->
+    verify_spend e commit_ok (spk_shwsh e (encode ke m)) (ssig_shwsh e (encode ke m)) (bs ++ [encode ke m]) = true.
+Proof. exact shwsh_dispatch. Qed.
+Print Assumptions C01_shwsh_spend_dispatch.
+
+(* bare: that the dispatcher does not take the script for a P2SH / witness-program / taproot
+   template is DERIVED (no encoding starts with OP_HASH160; the others leave two elements) *)
+Theorem C01_bare_spend_dispatch :
+  forall (e : env) (ke : keyenv) (A : assets) (se : senv) (f : fill),
+  linked ke A se f -> ksort_ok ke -> (forall kbs, e_sigok e kbs [] = false) ->
+  forall (mall rhs : bool) (m : ms) (t : ty),
+    type_of m = ROk t -> c_base (t_corr t) = BB -> no_multi m ->
+  forall bs, satisfy ke se f mall rhs m = Some bs ->
+  forall commit_ok : bytes -> bytes -> bool,
+    assets_ok (with_sv e SvBase) ke A -> wf (with_sv e SvBase) ke m -> ms_wf Bare ke m ->
+    Forall is_bytes bs ->
+  forall ss, witness_to_scriptsig bs = Some ss ->
+    blen (serialize ss) <= 1650 -> blen (encode ke m) <= 10000 -> count_nonpush_ops (enc ke m) <= 201 ->
+    verify_spend e commit_ok (spk_bare (encode ke m)) (serialize ss) [] = true.
+Proof. exact bare_dispatch. Qed.
+Print Assumptions C01_bare_spend_dispatch.
+
+Theorem C01_tr_spend_dispatch :
+  forall (e : env) (ke : keyenv) (A : assets) (se : senv) (f : fill),
+  linked ke A se f -> ksort_ok ke -> (forall kbs, e_sigok e kbs [] = false) ->
+  forall (mall rhs : bool) (m : ms) (t : ty),
+    type_of m = ROk t -> c_base (t_corr t) = BB -> no_multi m ->
+  forall bs, satisfy ke se f mall rhs m = Some bs ->
+  forall (commit_ok : bytes -> bytes -> bool) (outkey cb : bytes),
+    assets_ok (with_sv e SvTapscript) ke A -> wf (with_sv e SvTapscript) ke m -> ms_wf Tap ke m ->
+    blen outkey = 32 ->
+    commit_ok (encode ke m) cb = true -> not_annex cb ->
+    N.of_nat (length bs) <= 1000 -> forallb (fun it => N.leb (blen it) 520) (rev bs) = true ->
+    verify_spend e commit_ok (spk_tr outkey) [] (bs ++ [encode ke m; cb]) = true.
+Proof. exact tr_dispatch. Qed.
+Print Assumptions C01_tr_spend_dispatch.
+
+(* ---- key-only output types (not miniscripts): witness [signature; key] ---- *)
+Theorem C01_wpkh_spends :
+  forall (e : env) (k sg : bytes), blen k = 33 ->
+    e_keyok (with_sv e SvWitnessV0) k = true -> e_sigok e k sg = true -> sg <> [] ->
+    verify_wpkh e (e_hash160 e k) [sg; k] = true.
+Proof. exact wpkh_spends. Qed.
+Print Assumptions C01_wpkh_spends.
+
+Theorem C01_wpkh_spend_dispatch :
+  forall (e : env) (commit_ok : bytes -> bytes -> bool) (k sg : bytes),
+    blen k = 33 -> blen (e_hash160 e k) = 20 ->
+    e_keyok (with_sv e SvWitnessV0) k = true -> e_sigok e k sg = true -> sg <> [] ->
+    verify_spend e commit_ok (spk_wpkh e k) [] [sg; k] = true.
+Proof. exact wpkh_dispatch. Qed.
+Print Assumptions C01_wpkh_spend_dispatch.
+
+Theorem C01_shwpkh_spends :
+  forall (e : env) (k sg : bytes), blen k = 33 -> blen (e_hash160 e k) = 20 ->
+    e_keyok (with_sv e SvWitnessV0) k = true -> e_sigok e k sg = true -> sg <> [] ->
+    verify_sh e (e_hash160 e (spk_wpkh e k)) (ssig_shwpkh e k) [sg; k] = true.
+Proof. exact shwpkh_spends. Qed.
+Print Assumptions C01_shwpkh_spends.
+
+Theorem C01_shwpkh_spend_dispatch :
+  forall (e : env) (commit_ok : bytes -> bytes -> bool) (k sg : bytes),
+    blen k = 33 -> blen (e_hash160 e k) = 20 -> blen (e_hash160 e (spk_wpkh e k)) = 20 ->
+    e_keyok (with_sv e SvWitnessV0) k = true -> e_sigok e k sg = true -> sg <> [] ->
+    verify_spend e commit_ok (spk_shwpkh e k) (ssig_shwpkh e k) [sg; k] = true.
+Proof. exact shwpkh_dispatch. Qed.
+Print Assumptions C01_shwpkh_spend_dispatch.
+
+(* ---- non-vacuity, one per output type: a concrete world (Proofs/DescSpendExamples.v; script
+   or_i(pk(K0),pk(K1)), satisfaction [sig; 01]) in which every hypothesis of the theorem holds, and
+   in which verify_* and verify_spend are re-established by evaluation (vm_compute), independently
+   of the theorems.  [common_hyps] is the conjunction of the hypotheses shared by all of them. *)
+Import DescSpendExamples.
+Example C01_wsh_nonvacuous :
+  common_hyps ex_env SvWitnessV0 Segwitv0 ex_ke ex_A (ex_se false) (ex_f ex_ke) false true ex_m ex_bs /\
+  blen (e_sha256 ex_env ex_sb) = 32 /\
+  blen ex_sb <= 3600 /\ N.of_nat (length ex_bs) <= 100 /\ forallb (fun it => N.leb (blen it) 80) (rev ex_bs) = true /\
+  count_nonpush_ops (enc ex_ke ex_m) <= 201 /\
+  verify_wsh ex_env (e_sha256 ex_env ex_sb) (ex_bs ++ [ex_sb]) = true /\
+  verify_spend ex_env ex_commit (spk_wsh ex_env ex_sb) [] (ex_bs ++ [ex_sb]) = true.
+Proof. exact ex_wsh. Qed.
+
+Example C01_sh_nonvacuous :
+  common_hyps ex_env SvBase Legacy ex_ke ex_A (ex_se false) (ex_f ex_ke) false true ex_m ex_bs /\
+  blen (e_hash160 ex_env ex_sb) = 20 /\
+  Forall is_bytes ex_bs /\ is_bytes ex_sb /\
+  witness_to_scriptsig (ex_bs ++ [ex_sb]) = Some [IPush ex_sig; INum 1; IPush ex_sb] /\
+  blen (serialize ex_ss_sh) <= 1650 /\ count_nonpush_ops (enc ex_ke ex_m) <= 201 /\
+  verify_sh ex_env (e_hash160 ex_env ex_sb) (serialize ex_ss_sh) [] = true /\
+  verify_spend ex_env ex_commit (spk_sh ex_env ex_sb) (serialize ex_ss_sh) [] = true.
+Proof. exact ex_sh. Qed.
+
+(* in the same world the scriptSig made of plain DATA pushes (01 01 for the item 01 instead of
+   OP_1) does not parse on the specification side (MINIMALDATA) and the spend is rejected:
+   the OP_n forms of witness_to_scriptsig are load-bearing *)
+Example C01_sh_plain_data_pushes_rejected :
+  common_hyps ex_env SvBase Legacy ex_ke ex_A (ex_se false) (ex_f ex_ke) false true ex_m ex_bs /\
+  Forall is_bytes ex_bs /\ is_bytes ex_sb /\
+  blen (serialize (map IPush (ex_bs ++ [ex_sb]))) <= 1650 /\ count_nonpush_ops (enc ex_ke ex_m) <= 201 /\
+  parse_script (serialize (map IPush (ex_bs ++ [ex_sb]))) = None /\
+  verify_sh ex_env (e_hash160 ex_env ex_sb) (serialize (map IPush (ex_bs ++ [ex_sb]))) [] = false.
+Proof. exact ex_sh_plain_pushes_rejected. Qed.
+
+Example C01_shwsh_nonvacuous :
+  common_hyps ex_env SvWitnessV0 Segwitv0 ex_ke ex_A (ex_se false) (ex_f ex_ke) false true ex_m ex_bs /\
+  blen (e_sha256 ex_env ex_sb) = 32 /\ blen (e_hash160 ex_env (spk_wsh ex_env ex_sb)) = 20 /\
+  blen ex_sb <= 3600 /\ N.of_nat (length ex_bs) <= 100 /\ forallb (fun it => N.leb (blen it) 80) (rev ex_bs) = true /\
+  count_nonpush_ops (enc ex_ke ex_m) <= 201 /\
+  verify_sh ex_env (e_hash160 ex_env (spk_wsh ex_env ex_sb)) (ssig_shwsh ex_env ex_sb) (ex_bs ++ [ex_sb]) = true /\
+  verify_spend ex_env ex_commit (spk_shwsh ex_env ex_sb) (ssig_shwsh ex_env ex_sb) (ex_bs ++ [ex_sb]) = true.
+Proof. exact ex_shwsh. Qed.
+
+Example C01_bare_nonvacuous :
+  common_hyps ex_env SvBase Bare ex_ke ex_A (ex_se false) (ex_f ex_ke) false true ex_m ex_bs /\
+  Forall is_bytes ex_bs /\
+  witness_to_scriptsig ex_bs = Some [IPush ex_sig; INum 1] /\
+  blen (serialize ex_ss_bare) <= 1650 /\ blen ex_sb <= 10000 /\ count_nonpush_ops (enc ex_ke ex_m) <= 201 /\
+  verify_bare ex_env ex_sb (serialize ex_ss_bare) [] = true /\
+  verify_spend ex_env ex_commit (spk_bare ex_sb) (serialize ex_ss_bare) [] = true.
+Proof. exact ex_bare. Qed.
+
+Example C01_tr_nonvacuous :
+  se_tap (ex_se true) = true /\
+  common_hyps ex_env SvTapscript Tap ex_ke_tap ex_A (ex_se true) (ex_f ex_ke_tap) false true ex_m ex_bs /\
+  blen ex_outkey = 32 /\ ex_commit ex_sb_tap ex_cb = true /\ not_annex ex_cb /\
+  N.of_nat (length ex_bs) <= 1000 /\ forallb (fun it => N.leb (blen it) 520) (rev ex_bs) = true /\
+  verify_tr ex_env ex_outkey ex_commit [] (ex_bs ++ [ex_sb_tap; ex_cb]) = true /\
+  verify_spend ex_env ex_commit (spk_tr ex_outkey) [] (ex_bs ++ [ex_sb_tap; ex_cb]) = true.
+Proof. exact ex_tr. Qed.
+
+Example C01_wpkh_nonvacuous :
+  blen ex_key = 33 /\ blen (e_hash160 ex_env ex_key) = 20 /\ blen (e_hash160 ex_env (spk_wpkh ex_env ex_key)) = 20 /\
+  e_keyok (with_sv ex_env SvWitnessV0) ex_key = true /\ e_sigok ex_env ex_key ex_sig = true /\ ex_sig <> [] /\
+  verify_spend ex_env ex_commit (spk_wpkh ex_env ex_key) [] [ex_sig; ex_key] = true /\
+  verify_spend ex_env ex_commit (spk_shwpkh ex_env ex_key) (ssig_shwpkh ex_env ex_key) [ex_sig; ex_key] = true.
+Proof. exact ex_wpkh. Qed.
 
 (* non-vacuity: a concrete well-typed script with a non-empty table *)
 Example C01_nonvacuous :
